@@ -660,6 +660,8 @@ func main() {
 	par := flag.Int("par", 48, "runs in parallel")
 	corpus := flag.String("corpus", "", "directory of JSON case inputs that are run first")
 	replay := flag.String("replay", "", "JSON file holding one case input")
+	only := flag.Int("only", -1, "run only case number K of the generated list (its input is written to <out>.input.json first, so that it survives a crash of the process)")
+	count := flag.Bool("count", false, "print the number of generated cases and exit")
 	capIf := flag.String("capture", "", "internal: log the ARP frames seen on this interface")
 	capMS := flag.Int("capms", 2000, "internal: capture duration")
 	e2e := flag.Int("e2e", 0, "end-to-end runs of `sx arp --live` in a private network namespace")
@@ -686,6 +688,20 @@ func main() {
 		cs = []caseIn{in}
 	} else {
 		cs = append(readCorpus(*corpus), cases(*seed, *nTrace, *nSeq, *every, *nSlow)...)
+	}
+	if *count {
+		fmt.Println(len(cs))
+		return
+	}
+	if *only >= 0 {
+		if *only >= len(cs) {
+			return
+		}
+		cs = cs[*only : *only+1]
+		if b, err := json.Marshal(cs[0]); err == nil {
+			os.WriteFile(*outPath+".input.json", b, 0o644)
+		}
+		*e2e = 0
 	}
 	outs := make([]caseOut, len(cs))
 	var wg sync.WaitGroup
